@@ -364,7 +364,7 @@ def coq_eval_cases(ctx, pid, imports, case_type, mismatch_fn, cases, shard=400, 
     shown = {}
     for s in range(0, len(cases), shard):
         chunk = cases[s:s + shard]
-        name = "cases_%s%s_%d" % (pid, tag, s // shard)
+        name = "cases_%s%s_%d_p%d" % (pid, tag, s // shard, os.getpid())
         vf = os.path.join(COQ, "Run", name + ".v")
         with open(vf, "w") as f:
             f.write("(* generated by the correspondence harness; do not edit *)\n")
